@@ -81,6 +81,68 @@ def lex_types(lexer_cls, parser_cls, text: str):
     return toks
 
 
+def _alloc_history(ctx, res, rng, job):
+    """pages dated D get ZIDs; all notes of D leave (page deleted / moved away); `db create` again; a new note dated D
+    must get a ZID that was never handed out before"""
+    import re
+    import shutil
+
+    import zorgapi as Z
+
+    zdir = ctx.tmp / "z"
+    zdir.mkdir(parents=True)
+    cfg = Z.write_config(ctx.tmp / "cfg.yml")
+    handed = []
+
+    def zids_now():
+        out = []
+        for p in zdir.rglob("*.zo"):
+            if ".zorg" not in p.parts:
+                out += re.findall(r"^[-ox~<>] (?:P\d )?(\d{6}#\w{2,3})", p.read_text(), re.M)
+        return out
+
+    days = [dt.date(rng.randint(2020, 2030), rng.randint(1, 12), rng.randint(1, 28)) for _ in range(2)]
+    (zdir / "keep.zo").write_text("# Keep\n\n- 200101#00 a note that stays\n")
+    for rnd in range(3):
+        d = rng.choice(days)
+        name = f"day{rnd}.zo"
+        n = rng.randint(1, 3)
+        (zdir / name).write_text(f"# Log {d.isoformat()}\n\n" + "".join(f"- entry {rnd}.{i}\n" for i in range(n)))
+        cmd = ("db", "create") if rnd == 0 or rng.random() < 0.6 else ("db", "reindex")
+        Z.clear_engine_cache()
+        rc, _, _ = Z.zorg_main(zdir, *cmd, config=cfg)
+        res.evaluations += 1
+        if rc != 0:
+            res.notes.append(f"allocation history: {cmd} failed rc={rc}")
+            return None
+        new = [z for z in zids_now() if z not in handed and z != "200101#00"]
+        dup = [z for z in new if new.count(z) > 1]
+        if dup:
+            res.failures.append(C.Failure(f"ZID {dup[0]} written to two notes", {"kind": "history_dup", "round": rnd}))
+            return None
+        handed += new
+        # every note of that day leaves the notes directory (archived elsewhere); the index is created again
+        if rng.random() < 0.7:
+            (zdir / name).unlink()
+            Z.clear_engine_cache()
+            Z.zorg_main(zdir, "db", "create", config=cfg)
+        reused = [z for z in zids_now() if handed.count(z) > 1]
+    # a last note on each day: its ZID must be new
+    for k, d in enumerate(days):
+        (zdir / f"late{k}.zo").write_text(f"# Late {d.isoformat()}\n\n- a late entry\n")
+    Z.clear_engine_cache()
+    rc, _, _ = Z.zorg_main(zdir, "db", "create", config=cfg)
+    late = [z for p in sorted(zdir.glob("late*.zo")) for z in re.findall(r"^[-ox~<>] (\d{6}#\w{2,3})", p.read_text(), re.M)]
+    res.count("alloc_histories")
+    for z in late:
+        if z in handed:
+            res.failures.append(C.Failure(f"ZID {z} is handed out a second time: it was given to a note that has since left the notes directory (earlier allocations: {sorted(handed)})",
+                                          {"kind": "history_reuse", "zid": z, "handed": sorted(handed)}))
+            break
+    shutil.rmtree(zdir, ignore_errors=True)
+    return None
+
+
 def body(ctx: C.Ctx, proof: C.ProofStatus) -> C.Result:
     res = C.Result()
     rng = ctx.rng
@@ -238,6 +300,10 @@ def body(ctx: C.Ctx, proof: C.ProofStatus) -> C.Result:
                 )
             )
     res.count("recompiled", len(comp))
+    # index-level allocation histories: ZIDs handed out for a day stay used even when every note of that day has left the
+    # notes directory and the database is created again
+    hres, _ = C.parallel_jobs(ctx, ctx.scale(8, 60), _alloc_history)
+    res.merge(hres)
     # every calendar day a ZID can be allocated for (2000-01-01 .. 2099-12-31): is_zid must recognise the first, a middle and
     # the last suffix of that day, and the month / leap-day boundaries are recompiled
     from zorg.shared import dates as zdt
